@@ -4,9 +4,10 @@ import random
 from common import *
 import runner
 from props.parts import _tracksv1_gen as G
+from props.parts import _v1bindings as B
 
 NS = "EngineModel.Properties.C01V1."
-LEAN_MODULES = ["Properties.C01V1", "Properties.C01V1Db"]
+LEAN_MODULES = ["Properties.C01V1", "Properties.C01V1Db", B.LEAN_MODULE]
 THEOREMS = [NS + t for t in [
     "v1_C01_roundtrip", "v1_C01_reject", "v1_C01_never_ub", "v1_C01_accepts", "v1_C01_fixed_point",
     "v1_C01_fixed_point_rows", "v1_C01_representable", "v1_C01_representable_all", "v1_C01_prior_irrelevant",
@@ -16,8 +17,10 @@ THEOREMS = [NS + t for t in [
     "v1_C01_db_unique_path", "v1_C01_db_frame", "v1_C01_txn_create", "v1_C01_txn_update", "v1_C01_txn_prepare",
     "v1_C01_db_reject_unchanged", "v1_C01_codec_bridge", "v1_C01_codec_bridge_slots",
     "v1_C01_roundtrip_through_bytes", "v1_C01_nan_total", "v1_C01_nan_agrees", "v1_C01_nan_fields",
-    "v1_C01_nan_grid_counterexample"]]
+    "v1_C01_nan_grid_counterexample"]] + B.THEOREMS_C01   # regenerated storage bindings (Properties/C01V1Bindings.lean)
+TRANSLATORS = B.TRANSLATORS
 ASSUMPTIONS = [
+    B.ASSUMPTION,
     "1.x: a PerformanceData blob column is modelled by the codec's value-level effect (normTrack/normBeat/normCues/"
     "normLoops/normHires/normOvw); v1_C01_codec_bridge / _slots prove this IS decode(encode v) of the byte-level codec "
     "model Impl/V1.lean (on top of the locked C03 read-back theorems; exception classes of the cue / loop encoders by the "
@@ -50,7 +53,7 @@ MANIFEST_TEXT = (
     "decoded blobs and a second write of the read-back, plus Spec `normalize` on the real library's own answers; a "
     "fault-injection stream (failure at statement 0..7 of both calls: thrown => every observation of every track "
     "unchanged, other track never changed, UNIQUE(path) refusal) and a NaN stream.")
-TRUSTED_EXTRA = ["tools/props/parts/_tracksv1_gen.py (generators), harness/djv_tracksv1.cpp (raw row dump with the "
+TRUSTED_EXTRA = [B.TRUSTED, "tools/props/parts/_tracksv1_gen.py (generators), harness/djv_tracksv1.cpp (raw row dump with the "
                  "library's own blob decoders)"]
 
 
